@@ -27,6 +27,17 @@ def run(R, job):
                 exp = Tag(nm, *args, **kw2)
                 if not (type(got) is Tag and got.name == nm and got.add_ws == exp.add_ws and got == exp):
                     fails.append({"input": f"{m.__name__}.{nm}(*{args!r}, **{kw!r})", "observed": str(got)[:200] + f" add_ws={got.add_ws}", "expected": str(exp)[:200] + f" add_ws={exp.add_ws}"})
+            # its own element: the attribute map and child list are new objects, also when the only argument is another tag's attribute map
+            card = Tag("div", {"class": "card", "id": "c"}, "kid")
+            before = (dict(card.attrs), list(card.children))
+            for argv in ((card.attrs,), (card.attrs, "x"), (card.children,), (dict(card.attrs),)):
+                checked += 1
+                el = f(*argv)
+                el.attrs["data-new"] = "1"; el.add_class("added"); el.append("more")
+                if (dict(card.attrs), list(card.children)) != before or el.attrs is card.attrs or el.children is card.children:
+                    fails.append({"input": f"el = {m.__name__}.{nm}(card.attrs ...); el.add_class('added'); el.append('more')", "observed": f"the other tag changed: {dict(card.attrs)} {list(card.children)}",
+                                  "expected": "the new element shares nothing with its arguments"})
+                    card = Tag("div", {"class": "card", "id": "c"}, "kid")
             for bad in (1, "True", None):
                 checked += 1
                 try:
